@@ -1,8 +1,11 @@
 //! Correspondence harness: drives the real stretto code (built with
 //! `--cfg transparencies_stretto_verif`) through generated operation sequences and writes a trace
 //! that the extracted Coq model replays (`/verif/model/driver.ml`).
+mod cachegen;
+mod cachesuite;
 mod comp;
 mod rng;
+mod sched;
 mod trace;
 
 use rng::Rng;
@@ -37,7 +40,16 @@ fn main() {
         "tlfu" => comp::suite_tlfu(&mut rng, cases, &mut t, &mut ex),
         "policy" => comp::suite_policy(&mut rng, cases, &mut t, &mut ex),
         "bloomfp" => extra = comp::suite_bloomfp(&mut rng, cases, &mut t),
-        "replay" => comp::replay(arg(&args, "--in").expect("--in FILE"), &mut t, &mut ex),
+        "replay" => {
+            let f = arg(&args, "--in").expect("--in FILE");
+            let txt = std::fs::read_to_string(f).unwrap_or_default();
+            if txt.contains("\nS cnew ") {
+                cachegen::replay_cache(f, &mut t)
+            } else {
+                comp::replay(f, &mut t, &mut ex)
+            }
+        }
+        s if s.starts_with("cache") => cachegen::suite_cache(&mut rng, cases, &mut t, s),
         _ => {
             eprintln!("unknown suite {}", suite);
             std::process::exit(2);
